@@ -599,7 +599,7 @@ func runC05(c *Ctx) {
 	}
 
 	// ---------------------------------------------------------------- R4
-	c.rule("R4", "hit path: fresh only before expiry with delta = now - storedTime; stale only with lazy caching and TTL 5; else miss", 5)
+	c.rule("R4", "hit path: fresh only before expiry with delta = now - storedTime; stale only with lazy caching, from an entry that has a stale life, and TTL 5; else miss", 6)
 	{
 		lazyFlag, lazyTtl := get.Params[2], get.Params[3]
 		for _, r := range returnsOf(get) {
@@ -685,6 +685,39 @@ func runC05(c *Ctx) {
 				})
 				c.check(lazyGuard && ttlOK && !beforeGuard, key, instrPos(r), "stale answer only with lazy caching, TTL from the stale-TTL parameter",
 					fmt.Sprintf("stale hit not guarded correctly (lazy flag guard: %v, SetTTL(stale ttl): %v)", lazyGuard, ttlOK))
+				// D53: stale means "stored with a stale life": the backend's expiry is later than the message's. An entry
+				// without one (negative and empty answers) reaches this branch when the lookup straddles its expiry instant
+				// (the backend read the clock before it, this function after) and must be a miss.
+				staleLife := false
+				for _, g := range guardsOnAllPaths(r.Block()) {
+					v, truth := g.asBool()
+					cl, ok := v.(*ssa.Call)
+					if !ok || !truth {
+						continue
+					}
+					x, y := ssa.Value(nil), ssa.Value(nil)
+					switch callName(cl) {
+					case "(time.Time).After":
+						x, y = cl.Call.Args[0], cl.Call.Args[1]
+					case "(time.Time).Before":
+						x, y = cl.Call.Args[1], cl.Call.Args[0]
+					default:
+						continue
+					}
+					// x (later) is the expiry Cache.Get returned, y the item's own
+					ex, isEx := x.(*ssa.Extract)
+					if !isEx || ex.Index != 1 {
+						continue
+					}
+					if gc, isC := ex.Tuple.(*ssa.Call); !isC || !strings.HasSuffix(stripTypeArgs(callName(gc)), ".Cache).Get") {
+						continue
+					}
+					if k, isF := loadedField(y); isF && k == IT+".expirationTime" {
+						staleLife = true
+					}
+				}
+				c.check(staleLife, "stale-hit:has-stale-life", instrPos(r), "a stale answer is served only from an entry whose cache expiry is later than its message expiry",
+					"the stale branch does not ask whether the entry has a stale life (cache expiry later than message expiry): a negative or empty answer, stored without one, is served once more as a lazy hit when the lookup straddles its expiry instant (D53)")
 			}
 		}
 		// call sites: lazy flag = LazyCacheTTL > 0, stale TTL constant 5
